@@ -47,6 +47,10 @@ def _deco(seed, i, rot, heavy):
             ("tag", "#@%+"[(i + rot + 2) % 4], f"{tn}{i}c"),
             ("tag", "#@%+"[(i + rot + 3) % 4], f"{tn}{i}d"),
             ("glink", f"g{i}"),
+            ("llink", f"loc{i}"),
+            ("rlink", f"r{i}"),
+            ("zlink", f"2401{10 + i}#Z{i}"),
+            ("url", f"https://ex{i}.org/p{i}"),
             ("prop", f"u{i}", f"w{i}"),
             ("iprop", f"i{i}", ["x", f"y{i}"]),
             ("tag", "#", "123"),
